@@ -196,6 +196,45 @@ def wl_cli(root, rng, fail=False, out="out.bin"):
     return go
 
 
+# error paths: incomplete evidence (the library may refuse, but must not "repair" anything)
+def wl_hdd_backup_only(root, rng):
+    from dissect.hypervisor.disk.hdd import HDD
+    go = wl_hdd(root, rng)
+    d = os.path.join(root, "disk.hdd")
+    os.rename(os.path.join(d, "DiskDescriptor.xml"), os.path.join(d, "DiskDescriptor.xml.Backup"))
+    shutil.copy(os.path.join(d, "DiskDescriptor.xml.Backup"), os.path.join(d, "DiskDescriptor.xml.bak"))
+    open(os.path.join(d, "DiskDescriptor.xml.lck"), "w").write("lock")
+    return lambda: HDD(Path(d)).open().read(16384)
+
+
+def wl_vmdk_missing_extent(root, rng):
+    from dissect.hypervisor.disk.vmdk import VMDK
+    go = wl_vmdk(root, rng)
+    os.remove(os.path.join(root, "delta-e2.vmdk"))
+    os.remove(os.path.join(root, "base-e0.vmdk"))
+    return go
+
+
+def wl_vhdx_missing_parent(root, rng):
+    go = wl_vhdx(root, rng)
+    os.rename(os.path.join(root, "base.vhdx"), os.path.join(root, "base.vhdx.moved"))
+    return go
+
+
+def wl_vmdk_tempfile_descriptor(root, rng):
+    """The descriptor is staged in a NamedTemporaryFile next to its extents and passed as a handle."""
+    from dissect.hypervisor.disk.vmdk import VMDK
+    wl_vmdk(root, rng)
+    tf = tempfile.NamedTemporaryFile(dir=root, prefix="staged-", suffix=".vmdk")  # noqa: SIM115
+    tf.write(open(os.path.join(root, "base.vmdk"), "rb").read())
+    tf.flush()
+    tf.seek(0)
+
+    def go(tf=tf):
+        VMDK(tf).read(5 * 16 * 512)   # tf stays referenced by this closure until the directory has been hashed again
+    return go
+
+
 # ------------------------------------------------------------------------------------------------ recorder 2: caller-supplied handles
 class Handle(io.RawIOBase):
     """A caller-supplied handle that claims to be writable and records every method used on it."""
@@ -425,10 +464,13 @@ def run(ctx):
                             ("cli-ok", lambda r, g: wl_cli(r, g, False), "cli"), ("cli-fail", lambda r, g: wl_cli(r, g, True), "cli"),
                             ("cli-out-is-evidence-dir", lambda r, g: wl_cli(r, g, False, "."), "cli-dir"),
                             ("cli-out-is-subdir", lambda r, g: wl_cli(r, g, False, "sub"), "cli-sub"),
-                            ("cli-out-in-new-dir", lambda r, g: wl_cli(r, g, False, "nonexistent/out.bin"), "cli-new")):
+                            ("cli-out-in-new-dir", lambda r, g: wl_cli(r, g, False, "nonexistent/out.bin"), "cli-new"),
+                            ("hdd-backup-descriptor-only", wl_hdd_backup_only, "lib-mayraise"), ("vmdk-missing-extent", wl_vmdk_missing_extent, "lib-mayraise"),
+                            ("vhdx-missing-parent", wl_vhdx_missing_parent, "lib-mayraise"), ("vmdk-tempfile-descriptor", wl_vmdk_tempfile_descriptor, "lib")):
         root = tempfile.mkdtemp(prefix="verif-c09-")
         out_rel = {"cli": "out.bin", "cli-dir": ".", "cli-sub": "sub", "cli-new": "nonexistent/out.bin"}.get(phase)
-        phase = "cli" if phase.startswith("cli") else phase
+        may_raise = phase.endswith("-mayraise")
+        phase = "cli" if phase.startswith("cli") else "lib"
         try:
             go = mk(root, rng)
             before = tree_hash(root)
@@ -441,7 +483,7 @@ def run(ctx):
             evs = audit_off()
             after = tree_hash(root)
             evs.append(fs_event(before, after, phase, out_rel if phase == "cli" else None))
-            if err:
+            if err and not may_raise:
                 ctx.violation({"source": "audit", "workload": name, "fail": "workload-raised"}, {"error": err})
             tid += 1
             traces.append({"tid": tid, "source": "audit", "workload": name, "events": evs})
@@ -460,6 +502,41 @@ def run(ctx):
         traces.append({"tid": tid, "source": "handle", "workload": name, "events": [{"kind": "handle", "method": m} for m in h.calls] or [{"kind": "handle", "method": "read"}]})
         if err:
             ctx.violation({"source": "handle", "workload": name, "fail": "workload-raised"}, {"error": err})
+    # 2b. the same workloads on genuine handles: an in-memory buffer (content compared afterwards) and a file opened
+    #     for update inside an evidence directory (directory hash + audit events)
+    for name, fn, blob in handle_workloads(rng):
+        bio = io.BytesIO(blob)
+        err = ""
+        try:
+            fn(bio)
+        except Exception as e:  # noqa: BLE001
+            err = repr(e)[:200]
+        same = (not bio.closed and bio.getvalue() == blob) or bio.closed
+        tid += 1
+        traces.append({"tid": tid, "source": "bytesio", "workload": name, "events": [{"kind": "buffer", "changed": not same}]})
+        if err:
+            ctx.violation({"source": "bytesio", "workload": name, "fail": "workload-raised"}, {"error": err})
+        root = tempfile.mkdtemp(prefix="verif-c09-")
+        try:
+            pth = os.path.join(root, "evidence.bin")
+            with open(pth, "wb") as f:
+                f.write(blob)
+            before = tree_hash(root)
+            audit_on(root, phase="lib")
+            err = ""
+            try:
+                with open(pth, "r+b") as fh:
+                    fn(fh)
+            except Exception as e:  # noqa: BLE001
+                err = repr(e)[:200]
+            evs = [e for e in audit_off() if not (e["kind"] == "open" and e.get("path") == "evidence.bin" and "O_RDWR" in e.get("flags", []) and len(e["flags"]) <= 2)][:50]
+            evs.append(fs_event(before, tree_hash(root), "lib"))
+            tid += 1
+            traces.append({"tid": tid, "source": "updatable-file", "workload": name, "events": evs})
+            if err:
+                ctx.violation({"source": "updatable-file", "workload": name, "fail": "workload-raised"}, {"error": err})
+        finally:
+            shutil.rmtree(root, ignore_errors=True)
     # 3. call sites
     sites = call_sites(core.repo_path())
     tid += 1
